@@ -16,11 +16,13 @@ for d in sorted(glob.glob(V+'/seeded/*')):
     patch=os.path.join(d,'patch.diff')
     if not os.path.exists(patch): continue
     subprocess.run(['git','-C','/repo','checkout','--','.'],check=True)
-    r=subprocess.run(['git','-C','/repo','apply','--3way',patch],capture_output=True,text=True)
+    if os.path.exists(os.path.join(d,'patch.rebased.diff')): patch=os.path.join(d,'patch.rebased.diff')
+    r=subprocess.run(['git','-C','/repo','apply',patch],capture_output=True,text=True)
     if r.returncode!=0:
-        r=subprocess.run(['git','-C','/repo','apply',patch],capture_output=True,text=True)
+        r=subprocess.run(['patch','-p1','-F3','-s','-d','/repo','-i',patch],capture_output=True,text=True)
     if r.returncode!=0:
-        res[sid]={'apply':'FAILED '+r.stderr.strip()[:80]}; subprocess.run(['git','-C','/repo','checkout','--','.']); subprocess.run(['git','-C','/repo','reset','-q']); continue
+        res[sid]={'apply':'FAILED '+(r.stderr+r.stdout).strip()[:80]}; print(sid,res[sid],flush=True)
+        subprocess.run(['git','-C','/repo','checkout','--','.']); subprocess.run('rm -f /repo/*.rej /repo/*.orig',shell=True); continue
     row={}
     for c in checks:
         cid = sid.split('-')[0] if c=='own' else c
@@ -29,7 +31,7 @@ for d in sorted(glob.glob(V+'/seeded/*')):
         v=[l for l in p.stdout.splitlines() if l.startswith('VIOLATION')]
         row[cid]=('CAUGHT '+(v[0].split('replay=')[1].split('/')[-1] if v else '')) if p.returncode==1 else ('missed' if p.returncode==0 else 'rc%d'%p.returncode)
     res[sid]=row
-    subprocess.run(['git','-C','/repo','reset','-q'])
+    subprocess.run('rm -f /repo/*.rej /repo/*.orig',shell=True)
     subprocess.run(['git','-C','/repo','checkout','--','.'],check=True)
     print(sid,row,flush=True)
 json.dump(res,open(V+'/build/seedrun.json','w'),indent=1)
